@@ -187,7 +187,11 @@ def replay_and_validate(name, prop, scenarios, shards, mutate=None, timeout=3000
         for tf, v in ex.map(one, range(shards)):
             if not v["reports"] or not v["accepted"]:
                 raise vlib.ToolError(f"trace validation did not complete: {v['out']}")
-            out.append((tf, v["reports"][-1]))
+            rep = v["reports"][-1]
+            with open(v["out"]) as f:       # failures are printed per scenario (BAD) and at the end (REPORT)
+                earlier = vlib._printed(f.read(), "BAD")
+            rep["bad"] = [b for chunk in earlier for b in chunk] + list(rep["bad"])
+            out.append((tf, rep))
     return out, scn_file, build_s
 
 
